@@ -221,6 +221,47 @@ def check_module_hygiene(tree, qual, helper_names, used_aliases=()):
                 raise Untranslatable("helper %s is bound %d times in the file" % (h, every.get(h, 0)))
 
 
+STD_ALIASES = {"np": "numpy", "F": "torch.nn.functional", "nn": "torch.nn", "torch": "torch", "math": "math", "cplx": "cplx"}
+
+
+def check_rebinding(tree, qual, protected, free_names, init_ok=()):
+    """names the translator resolves statically must not be rebound dynamically: no attribute store / setattr on a protected
+    method name anywhere in the file, no decorated / metaclassed kernel class, no renaming import of a free function the kernel
+    or its atoms call, and the conventional module aliases must denote their modules"""
+    in_init = set()
+    for f_ in ast.walk(tree):
+        if isinstance(f_, ast.FunctionDef) and f_.name == "__init__":
+            in_init |= {id(n) for n in ast.walk(f_)}
+    for n in ast.walk(tree):
+        if isinstance(n, ast.Attribute) and isinstance(n.ctx, (ast.Store, ast.Del)) and n.attr in protected:
+            if n.attr in init_ok and id(n) in in_init and isinstance(n.value, ast.Name) and n.value.id == "self":
+                continue                      # a callable attribute chosen by the constructor (value_getter, deviation): an atom of the kernel table
+            raise Untranslatable("attribute %s is assigned in the file (methods are read statically)" % n.attr)
+        if isinstance(n, ast.Call) and isinstance(n.func, ast.Name) and n.func.id in ("setattr", "delattr") and len(n.args) >= 2:
+            a = n.args[1]
+            if not (isinstance(a, ast.Constant) and isinstance(a.value, str) and a.value not in protected):
+                raise Untranslatable("setattr with a name the translator cannot exclude")
+        if isinstance(n, (ast.Import, ast.ImportFrom)):
+            for a in n.names:
+                real = a.name.split(".")[-1]
+                full = ((n.module + ".") if isinstance(n, ast.ImportFrom) and n.module else "") + a.name
+                if a.asname and a.asname != real:
+                    if a.asname in free_names:
+                        raise Untranslatable("%s is imported under the name %s" % (a.name, a.asname))
+                    if a.asname in STD_ALIASES and full != STD_ALIASES[a.asname]:
+                        raise Untranslatable("the alias %s denotes %s" % (a.asname, full))
+                elif (a.asname or a.name) in ("torch", "math") and isinstance(n, ast.ImportFrom):
+                    raise Untranslatable("%s imported from %s" % (a.name, n.module))
+    parts = qual.split(".")
+    body = tree.body
+    for pname in parts[:-1]:
+        cls = [c for c in body if isinstance(c, ast.ClassDef) and c.name == pname]
+        if len(cls) == 1:
+            if cls[0].decorator_list or cls[0].keywords:
+                raise Untranslatable("class %s is decorated / has a metaclass" % pname)
+            body = cls[0].body
+
+
 def check_function_hygiene(fn, what):
     for d in fn.decorator_list:
         if not DECORATOR_OK.match(ast.unparse(d)):
@@ -635,7 +676,7 @@ class Tr:
             params = [a.arg for a in callee.args.args if a.arg != "self"]
             if len(node.args) > len(params):
                 raise Untranslatable("too many arguments for helper %s" % f.attr)
-            cenv = dict(self.base_env) if not params else {}
+            cenv = {}                                  # a helper sees its own parameters only (free names must be atoms)
             cenv["#n"] = env.get("#n", 0) + 50 * (self.depth + 1)      # keep bound names apart from the caller's
             given = dict(zip(params, node.args))
             for kwd in node.keywords:
@@ -1062,6 +1103,8 @@ class VecTr(Tr):
             if ta == "BV" and tb == "V":
                 return "(dotb ROps %s %s)" % (b, a), F
             if ta == "V" and tb == "BV":
+                if fname == "torch.matmul" and not self.spec.get("vector_left_ok"):
+                    raise Untranslatable("matmul(<vector>, <batch>) is not row-wise")
                 return "(dotb ROps %s %s)" % (a, b), F
             if ta == "V" and tb == "V":
                 return "(dot ROps %s %s)" % (a, b), F
@@ -1102,6 +1145,8 @@ class VecTr(Tr):
             if tx == F:
                 return "(sigmoid ROps %s)" % x, F
         if fname == "torch.sum" and len(args) == 1 and not kw:
+            if not self.spec.get("sum_all_ok"):
+                raise Untranslatable("torch.sum without an axis sums over the batch as well")
             a, ta = self.expr(args[0], env)
             if ta == "V":
                 return "(sum ROps %s)" % a, F
@@ -1112,6 +1157,8 @@ class VecTr(Tr):
                 return "(vatan2 %s %s)" % (a, b), "V"
             if ta == F and tb == F:
                 return "(Ratan2 %s %s)" % (a, b), F
+        if fname.startswith("cplx."):
+            self.used_cplx = True
         if fname in ("cplx.real", "cplx.imag") and len(args) == 1 and not kw:
             a, ta = self.expr(args[0], env)
             if ta == "C":
@@ -1125,7 +1172,7 @@ class VecTr(Tr):
             b, tb = self.expr(args[1], env)
             if ta == F and tb == F:
                 return "(%s, %s)" % (a, b), "C"
-        if fname == "torch.cat" and len(args) == 1 and set(kw) <= {"dim"} and (not kw or ast.unparse(kw["dim"]) == "-1"):
+        if fname == "torch.cat" and len(args) == 1 and set(kw) == {"dim"} and ast.unparse(kw["dim"]) == "-1":
             a, ta = self.expr(args[0], env)
             if ta == "LV":
                 return "(concat %s)" % a, "V"
@@ -1136,7 +1183,9 @@ class VecTr(Tr):
         if isinstance(f, ast.Attribute):
             meth = f.attr
             if meth == "to":                               # device move / cast to the dtype of another float tensor / to double
-                ok = len(args) <= 1 and all(isinstance(a, (ast.Name, ast.Attribute)) and not ast.unparse(a).startswith("torch.") for a in args) \
+                ok = len(args) <= 1 and all(isinstance(a, (ast.Name, ast.Attribute)) and not ast.unparse(a).startswith("torch.")
+                                            and all(isinstance(n, (ast.Name, ast.Attribute, ast.Load)) for n in ast.walk(a)) for a in args) \
+                    and all(all(isinstance(n, (ast.Name, ast.Attribute, ast.Load)) for n in ast.walk(v)) for v in kw.values()) \
                     and set(kw) <= {"device", "dtype", "non_blocking"} and ("dtype" not in kw or ast.unparse(kw["dtype"]) in ("torch.double", "torch.float64"))
                 if not ok:
                     raise Untranslatable("cast %s" % ast.unparse(node)[-70:])
@@ -1145,7 +1194,7 @@ class VecTr(Tr):
                 x, tx = self.expr(f.value, env)
                 if tx == "M":
                     return x, "Mt"
-            if meth in ("sum",) and set(kw) <= set() and [ast.unparse(a) for a in args] in ([], ["-1"]):
+            if meth in ("sum",) and set(kw) <= set() and [ast.unparse(a) for a in args] in (([], ["-1"]) if self.spec.get("sum_all_ok") else (["-1"],)):
                 x, tx = self.expr(f.value, env)
                 if tx == "V":
                     return "(sum ROps %s)" % x, F
@@ -1587,6 +1636,9 @@ def _is_stop_test(t):
     return isinstance(t, ast.Attribute) and t.attr == "stop_training" and isinstance(t.value, ast.Name) and t.value.id == "self"
 
 
+FIT_SELF_CALLS = {"_shuffle_data", "compute_batch_gradients", "parameters", "named_parameters"}      # trusted not to touch the stop flag / the callbacks
+
+
 def _sensitive(node):
     for n in ast.walk(node):
         if isinstance(n, (ast.Break, ast.Continue, ast.Return, ast.Raise, ast.While, ast.Try)):
@@ -1595,7 +1647,16 @@ def _sensitive(node):
             return True
         if isinstance(n, ast.Attribute) and n.attr in ("stop_training", "_stop_training"):
             return True
-        if isinstance(n, ast.Call) and isinstance(n.func, ast.Attribute) and n.func.attr == "step":
+        if isinstance(n, ast.Attribute) and n.attr in ("step", "__dict__", "__setattr__", "__class__"):
+            return True
+        if isinstance(n, ast.Assert):
+            return True
+        if isinstance(n, ast.Call) and isinstance(n.func, ast.Name) and n.func.id in ("setattr", "delattr", "vars", "locals", "globals", "exec", "eval"):
+            return True
+        if isinstance(n, ast.Call) and isinstance(n.func, ast.Attribute) and isinstance(n.func.value, ast.Name) and n.func.value.id == "self" \
+                and n.func.attr not in FIT_SELF_CALLS:
+            return True                       # a method of the state may raise the stop flag or call the callbacks
+        if isinstance(n, ast.Name) and isinstance(n.ctx, (ast.Store, ast.Del)) and n.id in ("self", "ep", "b", "epochs", "starting_epoch"):
             return True
     return False
 
@@ -1707,6 +1768,9 @@ def _sampler_cond(funcs, name):
     fn = funcs.get(name)
     if fn is None:
         raise Untranslatable("method %s not found" % name)
+    check_function_hygiene(fn, name)
+    if fn.decorator_list:
+        raise Untranslatable("%s carries a decorator" % name)
     body = [x for x in fn.body if not (isinstance(x, ast.Expr) and isinstance(x.value, ast.Constant))]
     params = [a.arg for a in fn.args.args if a.arg != "self"]
     if len(body) != 3 or not params or params[-1] != "out":
@@ -1742,6 +1806,7 @@ def extract_gibbs_skeleton(funcs, fn):
                 regs[name] = "RV"
                 continue
             if regs.get(name) == "RV" and " ".join(ast.unparse(st.value).split()) == name + ".contiguous()":
+                regs["#contiguous"] = True
                 continue                   # dense working memory (a strided start state is copied, written back below)
             m = re.fullmatch(r"torch\.zeros\(\*%s\.shape\[:-1\], self\.num_(hidden|aux)\)\.to\(self\.weights(_W)?\)" % re.escape(next((k for k, v in regs.items() if v == "RV"), "v")),
                              " ".join(ast.unparse(st.value).split()))
@@ -1755,9 +1820,10 @@ def extract_gibbs_skeleton(funcs, fn):
             loop, stage = st, 1
             continue
         if stage == 1 and isinstance(st, ast.If) and not st.orelse and len(st.body) in (1, 2) \
-                and " ".join(ast.unparse(st.test).split()).replace("(", "").replace(")", "") == "overwrite and v is not initial_state and v.device == initial_state.device" \
+                and " ".join(ast.unparse(st.test).split()) == "overwrite and v is not initial_state and (v.device == initial_state.device)" \
                 and ast.unparse(st.body[0]) == "initial_state.copy_(v)" \
                 and (len(st.body) == 1 or " ".join(ast.unparse(st.body[1]).split()) == "if initial_state.dtype == v.dtype: return initial_state"):
+            regs["#writeback"] = True
             continue                       # write-back when .to() / .contiguous() had to copy (storage model: Gibbs.gibbs_call)
         if stage == 1 and isinstance(st, ast.Return) and st.value is not None and regs.get(ast.unparse(st.value)) == "RV":
             stage = 2
@@ -1765,6 +1831,8 @@ def extract_gibbs_skeleton(funcs, fn):
         raise Untranslatable("statement of gibbs_steps outside the skeleton table: %s" % src[:90])
     if loop is None or stage != 2:
         raise Untranslatable("gibbs_steps has no sampling loop / does not return the chain tensor")
+    if not (regs.get("#contiguous") and regs.get("#writeback")):
+        raise Untranslatable("gibbs_steps lacks the dense working copy / the write-back of the storage model")
     steps = []
     for st in loop.body:
         if not (isinstance(st, ast.Expr) and isinstance(st.value, ast.Call) and isinstance(st.value.func, ast.Attribute)
@@ -1814,6 +1882,21 @@ def class_functions(tree, qual):
 
 
 _PINS = None
+
+
+def decorator_source(repo):
+    try:
+        t = ast.parse(open(os.path.join(repo, "qucumber/utils/__init__.py")).read())
+    except (OSError, SyntaxError):
+        return None
+    cls = [n for n in t.body if isinstance(n, ast.ClassDef) and n.name == "auto_unsqueeze_args"]
+    if len(cls) != 1 or scope_binders(t.body).get("auto_unsqueeze_args") != 1:
+        return None
+    c = cls[0]
+    for f_ in ast.walk(c):
+        if isinstance(f_, (ast.FunctionDef, ast.ClassDef)) and f_.body and isinstance(f_.body[0], ast.Expr) and isinstance(f_.body[0].value, ast.Constant) and isinstance(f_.body[0].value.value, str):
+            f_.body = f_.body[1:] or [ast.Pass()]
+    return ast.unparse(c)
 
 
 def kernel_skeleton(fn, target):
@@ -1875,6 +1958,15 @@ def translate_kernel(repo, spec):
     aliases = {n.value.id for f_ in scan for n in ast.walk(f_) if isinstance(n, ast.Attribute) and isinstance(n.value, ast.Name) and n.value.id in MODULE_ALIASES}
     check_module_hygiene(tree, spec["func"], sorted(helpers & used), sorted(aliases))
     check_function_hygiene(fn, spec["func"])
+    pats = [parse_pattern(p_) for p_, _c, _t in spec.get("atoms", [])]
+    atom_calls = {n.func.attr for pt in pats for n in ast.walk(pt) if isinstance(n, ast.Call) and isinstance(n.func, ast.Attribute)}
+    protected = {spec["func"].split(".")[-1]} | (helpers & used) | atom_calls | \
+        ({"sample_h_given_v", "sample_v_given_h", "sample_a_given_v", "sample_v_given_ha", "prob_h_given_v", "prob_v_given_h", "prob_a_given_v", "prob_v_given_ha"}
+         if spec.get("kind") == "gibbs-skeleton" else set()) | set(spec.get("protected", []))
+    free_names = {n.func.id for f_ in scan for n in ast.walk(f_) if isinstance(n, ast.Call) and isinstance(n.func, ast.Name)} | \
+        {n.func.id for pt in pats for n in ast.walk(pt) if isinstance(n, ast.Call) and isinstance(n.func, ast.Name)} | \
+        {ast.unparse(d.func if isinstance(d, ast.Call) else d) for f_ in scan for d in f_.decorator_list}
+    check_rebinding(tree, spec["func"], protected, free_names, init_ok=atom_calls - {spec["func"].split(".")[-1]} - (helpers & used))
     pins = _param_pins()
     key = "%s::%s" % (spec["file"], spec["func"])
     now = [a.arg for a in fn.args.args] + ["*" + a.arg for a in fn.args.kwonlyargs]
@@ -1882,6 +1974,25 @@ def translate_kernel(repo, spec):
         raise Untranslatable("the signature of %s is %s, pinned %s" % (spec["func"], now, pins[key]))
     if key not in pins and os.environ.get("SRCTIE_WRITE_PINS") != "1":
         raise Untranslatable("no pinned signature for %s (run tools/pin_srctie_params.py)" % key)
+    decs = [ast.unparse(d) for d in fn.decorator_list]
+    if pins.get(key + "#decorators", []) != decs and os.environ.get("SRCTIE_WRITE_PINS") != "1":
+        raise Untranslatable("the decorators of %s are %s, pinned %s" % (spec["func"], decs, pins.get(key + "#decorators", [])))
+    if any(d.startswith("auto_unsqueeze_args") for f_ in scan for d in [ast.unparse(x) for x in f_.decorator_list]) and os.environ.get("SRCTIE_WRITE_PINS") != "1":
+        if pins.get("#auto_unsqueeze_args") != decorator_source(repo):
+            raise Untranslatable("qucumber/utils/__init__.py::auto_unsqueeze_args differs from the pinned definition the row-wise reading assumes")
+    if spec.get("kind") in ("range", "guard"):
+        # these kinds read one expression in the ENTRY environment: nothing it mentions may be rebound anywhere in the function
+        bound = scope_binders(fn.body)
+        for n in ast.walk(fn):
+            if isinstance(n, ast.Attribute) and isinstance(n.ctx, (ast.Store, ast.Del)) and isinstance(n.value, ast.Name) and n.value.id == "self":
+                bound["self." + n.attr] = 1
+        watch = {py for py, _c, _t in spec["inputs"]} | {"self"} | \
+            {ast.unparse(n) for pt in pats for n in ast.walk(pt) if isinstance(n, ast.Attribute) and isinstance(n.value, ast.Name) and n.value.id == "self"}
+        if spec.get("kind") == "range":
+            watch |= {"progress_bar"} - set()
+        hit = sorted(w for w in watch if bound.get(w) and not (w == "progress_bar"))
+        if hit:
+            raise Untranslatable("%s is rebound inside %s" % (", ".join(hit), spec["func"]))
     if spec.get("pin_skeleton"):
         sk = kernel_skeleton(fn, spec["target"])
         skey = key + "#skeleton:" + spec["target"]
@@ -1917,6 +2028,15 @@ def translate_kernel(repo, spec):
             raise Untranslatable("*args / **kwargs")
     if kind == "guard":
         body = [x for x in fn.body if not (isinstance(x, ast.Expr) and isinstance(x.value, ast.Constant) and isinstance(x.value.value, str))]
+        gate_names = {py for py, _c, _t in spec["inputs"]}
+        gate_attrs = {n.attr for pt in pats for n in ast.walk(pt) if isinstance(n, ast.Attribute)}
+        guarded = (body[0].body if body and isinstance(body[0], ast.If) and not (len(body) >= 2 and len(body[0].body) == 1 and isinstance(body[0].body[0], ast.Return)) else body[1:])
+        for st_ in guarded:
+            for n in ast.walk(st_):
+                if isinstance(n, (ast.Return, ast.Raise, ast.Continue, ast.Break, ast.While, ast.Try)):
+                    raise Untranslatable("the guarded action of %s contains %s" % (spec["func"], type(n).__name__))
+                if isinstance(n, (ast.If, ast.IfExp)) and any((isinstance(m, ast.Name) and m.id in gate_names) or (isinstance(m, ast.Attribute) and m.attr in gate_attrs) for m in ast.walk(n.test)):
+                    raise Untranslatable("the guarded action of %s tests the gate's inputs again: %s" % (spec["func"], ast.unparse(n.test)[:60]))
         early = (len(body) >= 2 and isinstance(body[0], ast.If) and not body[0].orelse and len(body[0].body) == 1
                  and isinstance(body[0].body[0], ast.Return) and body[0].body[0].value is None)
         if early:                             # `if <test>: return` followed by the action
@@ -1933,6 +2053,10 @@ def translate_kernel(repo, spec):
             raise Untranslatable("%d loops over %s in %s" % (len(loops), spec["loop_var"], spec["func"]))
         it = loops[0].iter
         if isinstance(it, ast.Call) and ast.unparse(it.func) != "range" and it.args:
+            pb = [st for st in ast.walk(fn) if isinstance(st, ast.Assign) and any(isinstance(t_, ast.Name) and t_.id == "progress_bar" for t_ in st.targets)]
+            if ast.unparse(it.func) != "progress_bar" or len(pb) != 1 or ast.unparse(pb[0].value) != "tqdm_notebook if progbar == 'notebook' else tqdm" \
+                    or len(it.args) != 1 or any(k_.arg not in ("desc", "disable") for k_ in it.keywords) or scope_binders(fn.body).get("progress_bar") != 1:
+                raise Untranslatable("the loop over %s iterates over something other than range / the progress bar of a range" % spec["loop_var"])
             it = it.args[0]                   # progress_bar(range(...), ...)
         if not (isinstance(it, ast.Call) and ast.unparse(it.func) == "range" and not it.keywords and len(it.args) in (1, 2)):
             raise Untranslatable("the loop over %s does not iterate over range(lo, hi)" % spec["loop_var"])
@@ -1945,6 +2069,15 @@ def translate_kernel(repo, spec):
         e, t = tr.block(list(fn.body), env, kind, spec.get("target"))
     if e == BOTTOM[0]:
         raise Untranslatable("every path leaves the kernel")
+    if getattr(tr, "used_cplx", False) or any("cplx." in p_ for p_, _c, _t in spec.get("atoms", [])):
+        try:
+            ct = ast.parse(open(os.path.join(repo, "qucumber/utils/cplx.py")).read())
+        except (OSError, SyntaxError) as ex:
+            raise Untranslatable("cannot read cplx.py: %s" % ex)
+        for nm, cnt in scope_binders(ct.body).items():
+            if nm in CplxTr.PINS and cnt != 1:
+                raise Untranslatable("cplx.%s is bound %d times" % (nm, cnt))
+        CplxTr({"atoms": []}, {n.name: n for n in ct.body if isinstance(n, ast.FunctionDef)}).check_pins()
     want = spec.get("result")
     if want is not None:
         want_t = tuple(want) if isinstance(want, (list, tuple)) else want
